@@ -38,6 +38,10 @@ type OpdSpec struct {
 	CtSpec
 	Val int `json:"val"` // value selector for scalars
 	Len int `json:"len"` // vector length selector (0: full)
+	// Prec selects the precision of pointer-typed big-number operands (*big.Float, *bignum.Complex and slices of
+	// them): 0 exactly the encoding precision of the parameters, 1 lower (24 bits), 2 higher (128 bits),
+	// 3 real part at the encoding precision and an imaginary part of precision 0 (what new(big.Float) gives)
+	Prec int `json:"prec,omitempty"`
 }
 
 // OutSpec describes the output object when it is not one of the operands.
@@ -69,6 +73,9 @@ type EvalCase struct {
 	Arg    [3]int      `json:"arg"`
 	Hist   []HistOp    `json:"hist"`
 	Poison int         `json:"poison"` // 0 none, 1 all scratch buffers = q-1, 2 random
+	// Twice: the same call with the SAME second operand object (other op0, other receiver) is made once before the
+	// judged call: an operand that the first call modified changes the judged result
+	Twice bool `json:"twice,omitempty"`
 	// OutHist is the earlier life of the OUTPUT OBJECT: operations applied to it in place (they grow and shrink its
 	// degree and level, leaving spare capacity behind) before it is handed to the operation under test.
 	OutHist []string `json:"outHist,omitempty"`
@@ -293,7 +300,32 @@ func (e *env) floatValue(sel int, rng *h.SplitMix) float64 {
 	}
 }
 
+// bigPrec returns the precisions of the real and imaginary part for a precision selector.
+func (e *env) bigPrec(sel int) (re, im uint) {
+	enc := uint(53)
+	if e.ckksP != nil {
+		enc = e.ckksP.EncodingPrecision()
+	}
+	switch sel {
+	case 1:
+		return 24, 24
+	case 2:
+		return 128, 128
+	case 3:
+		return enc, 0
+	}
+	return enc, enc
+}
+
+func bigF(prec uint, v float64) *big.Float {
+	if prec == 0 {
+		return new(big.Float) // precision 0, value 0
+	}
+	return new(big.Float).SetPrec(prec).SetFloat64(v)
+}
+
 func (e *env) mkOperand(s OpdSpec, rng *h.SplitMix) any {
+	pre, pim := e.bigPrec(s.Prec)
 	n := e.rp.N()
 	vlen := n
 	if e.ckksP != nil {
@@ -354,9 +386,9 @@ func (e *env) mkOperand(s OpdSpec, rng *h.SplitMix) any {
 	case "complex128":
 		return complex(e.floatValue(s.Val, rng), e.floatValue((s.Val+3)%8, rng))
 	case "bigfloat":
-		return new(big.Float).SetPrec(uint(64 + 32*(s.Val%4))).SetFloat64(e.floatValue(s.Val, rng))
+		return bigF(pre, e.floatValue(s.Val, rng))
 	case "bigcomplex":
-		return &bignum.Complex{new(big.Float).SetPrec(128).SetFloat64(e.floatValue(s.Val, rng)), new(big.Float).SetPrec(128).SetFloat64(e.floatValue((s.Val+3)%8, rng))}
+		return &bignum.Complex{bigF(pre, e.floatValue(s.Val, rng)), bigF(pim, e.floatValue((s.Val+3)%8, rng))}
 	case "vecF":
 		v := make([]float64, vlen)
 		for i := range v {
@@ -372,13 +404,13 @@ func (e *env) mkOperand(s OpdSpec, rng *h.SplitMix) any {
 	case "vecBF":
 		v := make([]*big.Float, vlen)
 		for i := range v {
-			v[i] = new(big.Float).SetPrec(128).SetFloat64(rng.Float64()*2 - 1)
+			v[i] = bigF(pre, rng.Float64()*2-1)
 		}
 		return v
 	case "vecBC":
 		v := make([]*bignum.Complex, vlen)
 		for i := range v {
-			v[i] = &bignum.Complex{new(big.Float).SetPrec(128).SetFloat64(rng.Float64()*2 - 1), new(big.Float).SetPrec(128).SetFloat64(rng.Float64()*2 - 1)}
+			v[i] = &bignum.Complex{bigF(pre, rng.Float64()*2-1), bigF(pim, rng.Float64()*2-1)}
 		}
 		return v
 	}
@@ -730,6 +762,21 @@ func (c *EvalCase) run(e *env, o *opDesc, aliasOn, histOn, dirtyOn bool) (res ou
 	preEvk := hashEvk(e.evk)
 	preSwk := hashGadget(&e.swk.GadgetCiphertext)
 
+	// an earlier identical call with the SAME second operand object (other op0 and receiver of equal content); the
+	// snapshots above were taken before it, so a modification by either call is reported
+	if histOn && c.Twice && o.binary && al == 0 {
+		a2 := e.mkCt(c.A, h.NewSplitMix(c.Seed^0xa0a0a0a0))
+		var out2 *rlwe.Ciphertext
+		if o.acc {
+			out2 = e.mkCt(c.Out.CtSpec, h.NewSplitMix(c.Seed^0x0c0c0c0c))
+		} else if !o.isNew && res.natDeg >= 0 && res.natLvl >= 0 {
+			out2 = e.newCt(res.natDeg, res.natLvl)
+		}
+		if o.isNew || out2 != nil {
+			_, _ = protect(func() error { _, err := o.call(w, a2, b, out2, c.Arg); return err })
+		}
+	}
+
 	var ret *rlwe.Ciphertext
 	res.err, res.pan = protect(func() error {
 		var err error
@@ -826,6 +873,10 @@ func runEval(c EvalCase, rec *h.Rec) error {
 	rec.Classf("hist=%d", len(c.Hist))
 	rec.Classf("poison=%d", c.Poison)
 	rec.Classf("outhist=%d", len(c.OutHist))
+	rec.Classf("twice=%v", c.Twice)
+	if strings.HasPrefix(kind, "big") || kind == "vecBF" || kind == "vecBC" {
+		rec.Classf("bigprec=%d", c.B.Prec)
+	}
 	if o.binary && isElementKind(kind) {
 		rec.Classf("dims: op0 %d op1 %d", c.A.Dims, c.B.Dims)
 	}
@@ -1012,6 +1063,12 @@ func runEval(c EvalCase, rec *h.Rec) error {
 		}
 		if c.A.Unbatched {
 			sr += "|unbatched"
+		}
+		if strings.HasPrefix(kind, "big") || kind == "vecBF" || kind == "vecBC" {
+			sr += fmt.Sprintf("|prec%d", c.B.Prec)
+		}
+		if c.Twice {
+			sr += "|twice"
 		}
 		oh := ""
 		if dirty {
